@@ -448,13 +448,16 @@ def model_has_nan(im, mo):
     return False
 
 
-def same(im, mo):
+def same(im, mo, pow_domain=False):
+    """pow_domain: a NaN of the model (x**y with x < 0, outside the domain of Num.pow) matches any value"""
     if is_f(im):
         if not (isinstance(mo, list) and len(mo) == 3 and all(isinstance(z, int) for z in mo)):
             return False
+        if pow_domain and mo[0] == 3:
+            return True
         return F.close(fval(im), F.dec_float(mo))
     if isinstance(im, list):
-        return isinstance(mo, list) and len(im) == len(mo) and all(same(a, b) for a, b in zip(im, mo))
+        return isinstance(mo, list) and len(im) == len(mo) and all(same(a, b, pow_domain) for a, b in zip(im, mo))
     return im == mo
 
 
@@ -465,22 +468,60 @@ def uses_pow(case):
     return False
 
 
+ASSIGN = ("update", "updatesome", "apply", "setparam")
+
+
+def compact(op, rec):
+    """the implementation's record of one step in the compact form the model prints (UpdaterExec.trace)"""
+    out, (ps, u) = rec
+    small = [] if not u else [[[a[0], len(a[1]), len(a[2]), a[3], a[4]] for a in u[0]]]
+    return [out, ps if op[0] in ASSIGN else [], small]
+
+
 def compare(case, ti, tm):
-    """None when the traces agree; else a description of the first difference.  Comparison stops after the first
-    step that shows a NaN (x**y with a negative base is outside the domain Num.pow is specified for)."""
-    if len(ti) != len(tm):
-        return {"detail": "trace lengths differ", "impl": len(ti), "model": len(tm)}, False
-    for j, (a, b) in enumerate(zip(ti, tm)):
-        if a[0][0] == 1 and len(a[0]) > 2:
-            return {"first_diff_step": j, "op": case["ops"][j], "impl": a[0], "model": b[0]}, False
+    """(None, cut) when the traces agree; else a description of the first difference.  Comparison stops after the
+    first step that shows a NaN (x**y with a negative base is outside the domain Num.pow is specified for)."""
+    steps, final = tm
+    if len(ti) != len(steps):
+        return {"detail": "trace lengths differ", "impl": len(ti), "model": len(steps)}, False
+    prev = [[p[0], [["F"] + c10_fhex(v) for v in p[2]]] for p in case["params"]]
+    for j, (rec, b) in enumerate(zip(ti, steps)):
+        op = case["ops"][j]
+        if rec[0][0] == 1 and len(rec[0]) > 2:
+            return {"first_diff_step": j, "op": op, "impl": rec[0], "model": b[0]}, False
+        a = compact(op, rec)
         nan_i, nan_m = has_nan(a), model_has_nan(a, b)
-        if nan_m and not nan_i and uses_pow(case):
+        if not same(a, b, pow_domain=(nan_m and uses_pow(case))):
+            return {"first_diff_step": j, "op": op, "impl": a, "model": b}, False
+        if nan_m:
             return None, True
-        if not same(a, b):
-            return {"first_diff_step": j, "op": case["ops"][j], "impl": a, "model": b}, False
-        if nan_i:
+        if op[0] not in ASSIGN and rec[1][0] != prev:
+            return {"first_diff_step": j, "op": op, "detail": "parameters changed by an operation that assigns none",
+                    "before": prev, "after": rec[1][0]}, False
+        prev = rec[1][0]
+        if nan_i or has_nan(rec[1]):
             return None, True
+    if ti and not same(ti[-1][1], final):
+        return {"detail": "final states differ", "impl": ti[-1][1], "model": final}, False
     return None, False
+
+
+def c10_fhex(x):
+    """exact float -> [kind, mantissa, exponent] (same normal form as tools/impl/common.fhex)"""
+    x = float(x)
+    if x != x:
+        return [3, 0, 0]
+    if x in (math.inf, -math.inf):
+        return [1 if x > 0 else 2, 0, 0]
+    if x == 0:
+        return [0, 0, 0]
+    m, e = math.frexp(x)
+    mi = int(m * (1 << 53))
+    e -= 53
+    while mi % 2 == 0:
+        mi //= 2
+        e += 1
+    return [0, mi, e]
 
 
 # ------------------------------------------------------------------ direct oracle (plain Python, no torch, no Coq)
@@ -819,7 +860,7 @@ class Oracle:
                 if (new or "sum") != (a.red or "sum"):
                     for side in ("pos", "neg"):
                         if a.cached[side] and side not in a.stale:
-                            a.stale[side] = a.red
+                            a.stale[side] = a.red or "sum"
                 a.red = new
             elif k in ("upper", "lower"):
                 a = U[op[1]]
